@@ -296,7 +296,7 @@ func (r *Run) Finish() int {
 		"bounds":              r.Bounds,
 		"outcome_classes":     r.Agg.Classes,
 		"dont_care":           r.Agg.DontCare,
-		"notes":               r.Agg.Notes,
+		"notes":               capNotes(r.Agg.Notes, 80),
 		"known_findings_hit":  len(knownHit),
 	}
 	if r.Agg.States > 0 {
@@ -335,9 +335,41 @@ func (r *Run) Finish() int {
 	if len(r.Agg.Classes) > 14 {
 		cls = fmt.Sprintf("(%d classes, see evidence)", len(r.Agg.Classes))
 	}
+	var notes any = r.Agg.Notes
+	if len(r.Agg.Notes) > 12 {
+		notes = fmt.Sprintf("(%d kinds of notes, see evidence)", len(r.Agg.Notes))
+	}
 	fmt.Printf("%s tier=%s evals=%d states=%d trans=%d distinct=%d dontcare=%d exhaustive=%v classes=%v notes=%v violations=%d known=%d wall=%.1fs\n",
-		r.Prop, r.Tier, r.Agg.Evals, r.Agg.States, r.Agg.Trans, len(r.distinct), r.Agg.DontCare, r.Exhaustive && !r.Agg.Capped, cls, r.Agg.Notes, len(real), len(knownHit), wall)
+		r.Prop, r.Tier, r.Agg.Evals, r.Agg.States, r.Agg.Trans, len(r.distinct), r.Agg.DontCare, r.Exhaustive && !r.Agg.Capped, cls, notes, len(real), len(knownHit), wall)
 	return exit
+}
+
+// capNotes keeps the n most frequent note kinds and sums the rest (evidence files stay readable).
+func capNotes(m map[string]int, n int) map[string]int {
+	if len(m) <= n {
+		return m
+	}
+	keys := make([]string, 0, len(m))
+	for k := range m {
+		keys = append(keys, k)
+	}
+	sort.Slice(keys, func(i, j int) bool {
+		if m[keys[i]] != m[keys[j]] {
+			return m[keys[i]] > m[keys[j]]
+		}
+		return keys[i] < keys[j]
+	})
+	out := map[string]int{}
+	rest := 0
+	for i, k := range keys {
+		if i < n {
+			out[k] = m[k]
+		} else {
+			rest += m[k]
+		}
+	}
+	out[fmt.Sprintf("(%d further kinds of notes)", len(keys)-n)] = rest
+	return out
 }
 
 var repoRevCache string
